@@ -41,12 +41,21 @@ type RWMutex struct {
 	s       realsync.Mutex // guards the fields below; never held while blocking
 	writer  bool
 	readers int
-	wq      []chan struct{} // waiting writers, FIFO
-	rq      []chan struct{} // waiting readers
+	// announced: under the scheduler, a writer that found readers inside has
+	// made its Lock call known and waits (at a second scheduling point) for
+	// them to leave. As with package sync, no new reader is admitted from
+	// this moment on, so a reader that takes the read lock again while it
+	// already holds it deadlocks with that writer. (The scheduler only lets a
+	// thread pass a point whose operation would not block, so without this
+	// step a writer would never be "waiting" and that deadlock could not be
+	// explored.)
+	announced bool
+	wq        []chan struct{} // waiting writers, FIFO
+	rq        []chan struct{} // waiting readers
 }
 
 func (m *RWMutex) tryLock() bool {
-	if m.writer || m.readers > 0 {
+	if m.writer || m.readers > 0 || m.announced {
 		return false
 	}
 	m.writer = true
@@ -54,7 +63,7 @@ func (m *RWMutex) tryLock() bool {
 }
 
 func (m *RWMutex) tryRLock() bool {
-	if m.writer || len(m.wq) > 0 {
+	if m.writer || m.announced || len(m.wq) > 0 {
 		return false
 	}
 	m.readers++
@@ -63,11 +72,24 @@ func (m *RWMutex) tryRLock() bool {
 
 // Lock locks for writing.
 func (m *RWMutex) Lock() {
-	sched.Point(sched.OpLock, m, 1)
+	sched.Point(sched.OpLock, (*announcer)(m), 1)
 	m.s.Lock()
 	if m.tryLock() {
 		m.s.Unlock()
 		return
+	}
+	if sched.Active() && !m.writer && !m.announced && len(m.wq) == 0 {
+		// readers inside: announce, then wait for them under the scheduler
+		m.announced = true
+		m.s.Unlock()
+		sched.Point(sched.OpLock, (*drainer)(m), 1)
+		m.s.Lock()
+		m.announced = false
+		if m.tryLock() {
+			m.s.Unlock()
+			return
+		}
+		// the scheduler was switched off while we were parked: plain blocking
 	}
 	ch := make(chan struct{})
 	m.wq = append(m.wq, ch)
@@ -174,9 +196,31 @@ func (m *RWMutex) Enabled(k sched.OpKind) bool {
 	m.s.Lock()
 	defer m.s.Unlock()
 	if k == sched.OpRLock {
-		return !m.writer && len(m.wq) == 0
+		return !m.writer && !m.announced && len(m.wq) == 0
 	}
-	return !m.writer && m.readers == 0
+	return !m.writer && !m.announced && m.readers == 0
+}
+
+// announcer: the first point of RWMutex.Lock. The call can be made (and, if
+// readers are inside, announced) whenever no other writer holds or has
+// announced itself.
+type announcer RWMutex
+
+func (a *announcer) Enabled(sched.OpKind) bool {
+	m := (*RWMutex)(a)
+	m.s.Lock()
+	defer m.s.Unlock()
+	return !m.writer && !m.announced && len(m.wq) == 0
+}
+
+// drainer: the second point of an announced writer: the readers have left.
+type drainer RWMutex
+
+func (d *drainer) Enabled(sched.OpKind) bool {
+	m := (*RWMutex)(d)
+	m.s.Lock()
+	defer m.s.Unlock()
+	return m.readers == 0
 }
 
 // Mutex is an instrumented, durably blocking mutual exclusion lock.
